@@ -94,6 +94,10 @@ def pslq_case(c, idx, p, planted):
         maxcoeff = rng.choice([10, 100, 1000, 10 ** 6])
         maxsteps = rng.choice([100, 1000])
         desc = "constants %s" % names
+    if rng.random() < 0.4:
+        # the bound is relative to the norm of x: the same vector scaled by a power of two (exact) far away from norm 1
+        sc = rng.choice([-60, -30, -20, -8, 12, 40])
+        xs = [mp.ldexp(v, sc) for v in xs]; desc += " scaled by 2^%d" % sc
     base = {"prec": p, "n": n, "x": [list(x._mpf_) for x in xs], "tol": None if tol is None else list(tol._mpf_),
             "maxcoeff": maxcoeff, "maxsteps": maxsteps, "fn": "pslq", "planted": planted, "desc": desc}
     kw = {"maxcoeff": maxcoeff, "maxsteps": maxsteps}
@@ -175,7 +179,8 @@ def findpoly_case(c, idx, p, planted):
 
 
 # ----------------------------------------------------------------------------- identify
-IDENT = [("3/7", []), ("sqrt(2)/3", []), ("(1+sqrt(5))/2", []), ("2*pi+1", ["pi"]), ("pi/4", ["pi"]), ("exp(2)", []),
+IDENT = [("exp(-sqrt(2))", []), ("exp(-sqrt(3)/2)", []), ("exp(sqrt(2))", []), ("exp(-sqrt(5)/3)", []), ("exp(-2/3)", []),
+         ("3/7", []), ("sqrt(2)/3", []), ("(1+sqrt(5))/2", []), ("2*pi+1", ["pi"]), ("pi/4", ["pi"]), ("exp(2)", []),
          ("3*e-1", ["e"]), ("log(2)/3+1", ["log(2)"]), ("sqrt(pi)", ["pi"]), ("2**(1/3)*3", []), ("(2/3)*pi+(1/5)*e", ["pi", "e"]),
          ("exp(pi/2)", ["pi"]), ("7/(1+sqrt(2))", []), ("log(3)*2", ["log(3)"]), ("5**(2/3)/7", [])]
 
